@@ -36,12 +36,24 @@ open PyTealV PyTealV.Avm PyTealV.Src PyTealV.Comp PyTealV.Models.Fragment
 structure RK where
   callees : List Callee
   rv : Bool                 -- the routine returns a value (main routine: `true`)
+  ign : List Nat := []      -- slots that only the owning routine may read and nobody may write
+                            -- (frame-pointer convention: all by-value parameter slots; else `[]`)
+  own : List Nat := []      -- the slots of `ign` this routine may read (its own parameters)
+  okCalls : Option (List Nat) := none   -- `some l`: only the routines of `l` may be called
+  dyn : Bool := false       -- `vloads` / `vstores` (slots addressed by a run-time value) are allowed;
+                            -- the machine may then fail the range check of `loads` / `stores`
   deriving Repr, Inhabited
 
 /-- signature of the opcodes of the fragment: those of `primSig` that do not address scratch
     space by a run-time value (`Optimizer.framedOps`), plus `loads` / `stores` -/
 def primSigR (op : String) : Option (Nat × Nat) :=
   if Models.Optimizer.framedOps.contains op || op == "loads" || op == "stores" then primSig op else none
+
+/-- with ignored slots, the run-time addressed `loads` / `stores` are excluded as well -/
+def primSigK (K : RK) (op : String) : Option (Nat × Nat) :=
+  if K.ign.isEmpty then
+    (if K.dyn && (op == "vloads" || op == "vstores") then primSig op else primSigR op)
+  else if Models.Optimizer.framedOps.contains op then primSig op else none
 
 mutual
   /-- `wtR K bc rc n e`: `e` is in the fragment, yields exactly `n` values on normal completion,
@@ -50,17 +62,17 @@ mutual
     | .int _ => n == 1
     | .bytes _ => n == 1
     | .index _ => n == 1
-    | .load v => n == 1 && decide (v < 256)
+    | .load v => n == 1 && ((K.ign.contains v && K.own.contains v) || (decide (v < 256) && !K.ign.contains v))
     | .prim op _ args =>
-      (match primSigR op with
+      (match primSigK K op with
        | some (k, p) => args.length == k && p == n
        | none => false) && wtRArgs K args
-    | .store v e => n == 0 && decide (v < 256) && wtR K false false 1 e
+    | .store v e => n == 0 && decide (v < 256) && !K.ign.contains v && wtR K false false 1 e
     | .multi op _ args outs =>
       n == 0 &&
-      (match primSigR op with
+      (match primSigK { K with dyn := false } op with
        | some (k, p) => args.length == k && p == outs.length
-       | none => false) && outs.all (fun v => decide (v < 256)) && wtRArgs K args
+       | none => false) && outs.all (fun v => decide (v < 256) && !K.ign.contains v) && wtRArgs K args
     | .seq es => wtRSeq K bc rc n es
     | .ite c t none => n == 0 && wtR K false false 1 c && wtR K bc rc 0 t
     | .ite c t (some e) => wtR K false false 1 c && wtR K bc rc n t && wtR K bc rc n e
@@ -77,7 +89,10 @@ mutual
     | .call f args =>
       (match K.callees.find? (·.id == f) with
        | some ce => args.length == ce.nArgs && n == (if ce.hasRet then 1 else 0)
-       | none => false) && wtRArgs K args
+       | none => false) &&
+      (match K.okCalls with
+       | some l => l.contains f
+       | none => true) && wtRArgs K args
     | .wideRatio _ _ => false
     | .substring s a b => n == 1 && wtR K false false 1 s && wtR K false false 1 a && wtR K false false 1 b
     | .extract s a l => n == 1 && wtR K false false 1 s && wtR K false false 1 a && wtR K false false 1 l
@@ -106,50 +121,6 @@ def nodupB : List Nat → Bool
 def spillSlots (sd : SubDef) : List Nat := Check.sortNat (Check.spillKeys false sd)
 
 def sameSet (a b : List Nat) : Bool := a.all b.contains && b.all a.contains
-
-/-- per-subroutine conditions (stage ≤ 2: by-value parameters, scratch-slot convention):
-    body arity-typed for the declared return kind; parameters by value, pairwise distinct real
-    slots; local variables are real slots; the spill set the generator uses (`spillSlots`: sorted,
-    duplicates removed) is duplicate-free and has the elements of `locals` (always true; checked
-    instead of proved about `sortNat ∘ eraseDups`) -/
-def subOk (p : Prog) (sd : SubDef) : Bool :=
-  wtR { callees := calleesOf p, rv := sd.hasRet } false true (if sd.hasRet then 1 else 0) sd.body &&
-  sd.params.all (fun kv => kv.1 == .val && decide (kv.2 < 256)) &&
-  nodupB (sd.params.map (·.2)) &&
-  sd.locals.all (fun v => decide (v < 256)) &&
-  nodupB (spillSlots sd) && sameSet (spillSlots sd) sd.locals
-
-def mainOk (p : Prog) : Bool :=
-  wtR { callees := calleesOf p, rv := true } false true 0 p.main ||
-  wtR { callees := calleesOf p, rv := true } false true 1 p.main
-
-/-- **The fragment of programs** of `genProg_correct` (scratch-slot convention, by-value
-    parameters; recursion allowed). -/
-def inFragmentR (p : Prog) : Bool :=
-  mainOk p && p.subs.all (subOk p) && nodupB (p.subs.map (·.id))
-
-/-! ### The whole-program generator: main routine and every subroutine of the table -/
-
-/-- graphs of the listed subroutines under their model labels `"@id"` -/
-def genSubs (version : Nat) (fp : Bool) (p : Prog) : List SubDef → Except String (List (String × Graph × Nat))
-  | [] => .ok []
-  | sd :: rest =>
-    match genSub version fp false p sd (Check.sortNat (Check.spillKeys fp sd)), genSubs version fp p rest with
-    | .ok r, .ok rs => .ok ((subLabel sd.id, r.G, r.start) :: rs)
-    | .error e, _ => .error e
-    | _, .error e => .error e
-
-/-- the multi-routine graph program of `p` (what `Check.buildCert` regenerates routine by routine) -/
-def genProg (version : Nat) (fp : Bool) (p : Prog) : Except String PProg :=
-  match genMainR version false p, genSubs version fp p p.subs with
-  | .ok m, .ok subs => .ok { main := m.G, start := m.start, subs := subs }
-  | .error e, _ => .error e
-  | _, .error e => .error e
-
-/-- no routine is declared re-entrant (nothing is spilled): stage 1 -/
-def noReentry (p : Prog) : Bool := p.subs.all (fun sd => sd.reenters.isEmpty)
-
-/-! ### Call graph, recursion points (documentation of `SubDef.reenters`) -/
 
 mutual
   /-- the routines a tree calls (with repetitions) -/
@@ -182,6 +153,114 @@ mutual
     | (c, b) :: rest => callsOf c ++ callsOf b ++ callsOfA rest
 end
 
+/-! ### frame-pointer convention: parameters live in the stack frame -/
+
+/-- all parameter slots of the program -/
+def allParamSlots (p : Prog) : List Nat := p.subs.flatMap (fun sd => sd.params.map (·.2))
+
+/-- the slots `SameW` ignores: under the frame-pointer convention the parameter cells of the source
+    semantics have no counterpart in scratch space -/
+def ignOf (fp : Bool) (p : Prog) : List Nat := if fp then allParamSlots p else []
+
+/-- `genSub`'s table of by-value parameters read with `frame_dig` -/
+def fpParams (sd : SubDef) : List (Var × Int) :=
+  ((List.range sd.params.length).zip sd.params).filterMap
+    (fun (i, (k, v)) => if k == .val then some (v, (i : Int) - (sd.params.length : Int)) else none)
+
+/-- one round of "add the callees" -/
+def closeStep (p : Prog) (T : List Nat) : List Nat :=
+  (T ++ T.flatMap (fun h => match findSub p h with
+    | some sd => callsOf sd.body
+    | none => [])).eraseDups
+
+def iter {α} (f : α → α) : Nat → α → α
+  | 0, x => x
+  | n + 1, x => iter f n (f x)
+
+/-- the routines reachable from `g` (candidate; what is used is that it is closed — checked) -/
+def reachSet (p : Prog) (g : Nat) : List Nat := iter (closeStep p) (p.subs.length + 1) [g]
+
+/-- `T` consists of declared routines and is closed under "calls" -/
+def closedSet (p : Prog) (T : List Nat) : Bool :=
+  T.all (fun h => match findSub p h with
+    | some sd => (callsOf sd.body).all T.contains
+    | none => false)
+
+/-- the callees `g` of `sd` after whose return the parameter cells of `sd` are intact in the source
+    semantics: `g` is declared re-entrant (the cells are saved and restored), or `g` cannot reach `sd`
+    (witnessed by a closed set of routines that contains `g` and not `sd`) -/
+def okCallsOf (p : Prog) (sd : SubDef) : List Nat :=
+  (callsOf sd.body).filter (fun g =>
+    sd.reenters.contains g ||
+    (closedSet p (reachSet p g) && (reachSet p g).contains g && !(reachSet p g).contains sd.id))
+
+/-- typing context of the main routine / of a subroutine -/
+def mainK (fp : Bool) (p : Prog) (dyn : Bool := false) : RK :=
+  { callees := calleesOf p, rv := true, ign := ignOf fp p, dyn := dyn }
+
+def subK (fp : Bool) (p : Prog) (sd : SubDef) (dyn : Bool := false) : RK :=
+  if fp then
+    { callees := calleesOf p, rv := sd.hasRet, ign := allParamSlots p, own := sd.params.map (·.2),
+      okCalls := some (okCallsOf p sd), dyn := dyn }
+  else { callees := calleesOf p, rv := sd.hasRet, dyn := dyn }
+
+/-- the slots the generated code spills around a re-entrant call -/
+def spillSlotsC (fp : Bool) (sd : SubDef) : List Nat := Check.sortNat (Check.spillKeys fp sd)
+
+/-- per-subroutine conditions (by-value parameters; both calling conventions):
+    body arity-typed for the declared return kind; parameters by value, pairwise distinct real
+    slots; local variables are real slots; the spill set the generator uses is duplicate-free and,
+    outside the ignored slots, has the elements of `locals` (always true; checked instead of
+    proved about `sortNat ∘ eraseDups ∘ filter`); under the frame-pointer convention the
+    parameters are among the `locals` (so that the source semantics restores them after a
+    re-entrant call) -/
+def subOkC (fp : Bool) (p : Prog) (sd : SubDef) (dyn : Bool := false) : Bool :=
+  wtR (subK fp p sd dyn) false true (if sd.hasRet then 1 else 0) sd.body &&
+  sd.params.all (fun kv => (kv.1 == .val || !fp) && (fp || decide (kv.2 < 256))) &&
+  nodupB (sd.params.map (·.2)) &&
+  sd.locals.all (fun v => (ignOf fp p).contains v || decide (v < 256)) &&
+  nodupB (spillSlotsC fp sd) &&
+  (spillSlotsC fp sd).all (fun x => sd.locals.contains x && !(ignOf fp p).contains x) &&
+  sd.locals.all (fun x => (ignOf fp p).contains x || (spillSlotsC fp sd).contains x) &&
+  (!fp || sd.params.all (fun kv => sd.locals.contains kv.2))
+
+def mainOkC (fp : Bool) (p : Prog) (dyn : Bool := false) : Bool :=
+  wtR (mainK fp p dyn) false true 0 p.main || wtR (mainK fp p dyn) false true 1 p.main
+
+/-- **The fragment of programs** of `genProg_correct` (by-value parameters; recursion allowed);
+    `fp = false`: scratch-slot convention, `fp = true`: frame-pointer convention (then the
+    parameter slots of all routines are pairwise distinct) -/
+def inFragmentC (fp : Bool) (p : Prog) (dyn : Bool := false) : Bool :=
+  mainOkC fp p dyn && p.subs.all (fun sd => subOkC fp p sd dyn) && nodupB (p.subs.map (·.id)) &&
+  (!fp || nodupB (allParamSlots p))
+
+def subOk (p : Prog) (sd : SubDef) : Bool := subOkC false p sd
+def mainOk (p : Prog) : Bool := mainOkC false p
+def inFragmentR (p : Prog) : Bool := inFragmentC false p
+
+/-! ### The whole-program generator: main routine and every subroutine of the table -/
+
+/-- graphs of the listed subroutines under their model labels `"@id"` -/
+def genSubs (version : Nat) (fp : Bool) (p : Prog) : List SubDef → Except String (List (String × Graph × Nat))
+  | [] => .ok []
+  | sd :: rest =>
+    match genSub version fp false p sd (Check.sortNat (Check.spillKeys fp sd)), genSubs version fp p rest with
+    | .ok r, .ok rs => .ok ((subLabel sd.id, r.G, r.start) :: rs)
+    | .error e, _ => .error e
+    | _, .error e => .error e
+
+/-- the multi-routine graph program of `p` (what `Check.buildCert` regenerates routine by routine) -/
+def genProg (version : Nat) (fp : Bool) (p : Prog) : Except String PProg :=
+  match genMainR version false p, genSubs version fp p p.subs with
+  | .ok m, .ok subs => .ok { main := m.G, start := m.start, subs := subs }
+  | .error e, _ => .error e
+  | _, .error e => .error e
+
+/-- no routine is declared re-entrant (nothing is spilled): stage 1 -/
+def noReentry (p : Prog) : Bool := p.subs.all (fun sd => sd.reenters.isEmpty)
+
+/-! ### Call graph, recursion points (documentation of `SubDef.reenters`) -/
+
 def callGraph (p : Prog) : Spill.CallGraph := p.subs.map (fun sd => (sd.id, (callsOf sd.body).eraseDups))
 
 /-- `SubDef.reenters` is what `findRecursionPoints` computes from the call graph of the bodies -/
@@ -199,6 +278,6 @@ def hasRef (p : Prog) : Bool := p.subs.any (fun sd => sd.params.any (fun kv => k
 
 /-- the stage of the proof plan a program needs under the given calling convention -/
 def stageOf (p : Prog) (fp : Bool) : Nat :=
-  if fp then 4 else if hasRef p then 3 else if acyclic p then 1 else 2
+  if hasRef p then 3 else if fp then 4 else if acyclic p then 1 else 2
 
 end PyTealV.Models.FragmentR
